@@ -150,8 +150,13 @@ class BlockSeries:
                     dimension_names=self.dimension_names,
                 )
 
+            # Index the orders with slices rather than integers: integers would count
+            # as advanced indices and numpy would then move the dimensions of a list
+            # index in `item` to the front if a slice separates them from the orders.
             packed = BlockSeries(
-                eval=lambda *index: self[item + index].filled(zero),
+                eval=lambda *index: self[
+                    item + tuple(slice(order, order + 1) for order in index)
+                ].filled(zero)[(..., *(0,) * self.n_infinite)],
                 shape=(),
                 n_infinite=self.n_infinite,
             )
